@@ -85,6 +85,7 @@ structure TaskDef where
   -- guard outcomes are data, so theorems quantify over all of them
   platformOk : Bool := true
   requiresOk : Bool := true
+  compileOk : Bool := true       -- `CompiledTask` succeeds (false: a template error in a task-level field)
   enumOk : Bool := true
   precondOk : Bool := true
   upToDate : Bool := false
@@ -196,14 +197,17 @@ deriving DecidableEq, Repr, Inhabited
 
 /-! ### deterministic helpers -/
 
-/-- what `RunTask` decides before it takes a slot: unknown task (200), platform skip,
-missing required variable (206), value outside enum (207), called too many times (204) -/
+/-- what `RunTask` decides before it takes a slot, in the order it asks: unknown task (200),
+platform skip (success — whatever the later guards would say), missing required variable (206),
+the task does not compile (a template error: a plain error), value outside enum (207), called too
+many times (204) -/
 def earlyResult (d? : Option TaskDef) (count maxCalls : Nat) : Option Res :=
   match d? with
   | none => some (.typed 200)
   | some d =>
     if !d.platformOk then some .ok
     else if !d.requiresOk then some (.typed 206)
+    else if !d.compileOk then some .generic
     else if !d.enumOk then some (.typed 207)
     else if count ≥ maxCalls then some (.typed 204)
     else none
@@ -378,10 +382,10 @@ def freshAct (P : Program) (F : Flags) (c : Config) (kind : Kind) (t : Nat) : Ac
   | some r => { x0 with phase := .early, res := r, out := ⟨r, false⟩ }
   | none => x0
 
-/-- `atomic.AddInt32(e.taskCallCount[t], 1)`: reached only when platform / requires / enum passed -/
+/-- `atomic.AddInt32(e.taskCallCount[t], 1)`: reached only when platform / requires / compilation / enum passed -/
 def bumpCalls (P : Program) (c : Config) (t : Nat) : Config :=
   match P[t]? with
-  | some d => if d.platformOk && d.requiresOk && d.enumOk then { c with calls := (t, c.callCount t + 1) :: c.calls } else c
+  | some d => if d.platformOk && d.requiresOk && d.compileOk && d.enumOk then { c with calls := (t, c.callCount t + 1) :: c.calls } else c
   | none => c
 
 /-- who may create activation `a` now: `Run` (k-th call) or a parent activation, which gains a kid -/
